@@ -53,6 +53,20 @@ def showErr : VerifyErr → String
   | .hostname => "hostname"
   | .authority => "authority"
 
+def doGet (s : St) (op mode fb sni : String) (now : Int) : St × String :=
+  match unhex fb, unhex sni with
+  | some fbb, some snb =>
+    if !(inModel fbb && inModel snb) then (s, "out-of-model") else
+    let pre := if op = "hs" then "hs " else ""
+    if mode = "tls" then
+      let r := getCertTLS s.cfg snb now s.st
+      ({ s with st := r.1, now := now, last := lastOf r.2 s.last }, pre ++ showOutcome s.st.next r.2)
+    else if mode = "host" then
+      let r := getCertForHost s.cfg fbb snb now s.st
+      ({ s with st := r.1, now := now, last := lastOf r.2 s.last }, pre ++ showOutcome s.st.next r.2)
+    else (s, "bad-op")
+  | _, _ => (s, "bad-op")
+
 def step (s : St) (toks : List String) : St × String :=
   match toks with
   | ["validity", secs] =>
@@ -72,20 +86,26 @@ def step (s : St) (toks : List String) : St × String :=
       (s, if verifyHostname (handMade ns is 0 0 true) hb then "vh ok" else "vh no")
     | _, _, _ => (s, "bad-op")
   | [op, mode, fb, sni] =>
-    if op ≠ "get" ∧ op ≠ "hs" then (s, "bad-op") else
-    match unhex fb, unhex sni with
-    | some fbb, some snb =>
-      if !(inModel fbb && inModel snb) then (s, "out-of-model") else
-      let pre := if op = "hs" then "hs " else ""
-      let now := s.now + 1
-      if mode = "tls" then
-        let r := getCertTLS s.cfg snb now s.st
-        ({ s with st := r.1, now := now, last := lastOf r.2 s.last }, pre ++ showOutcome s.st.next r.2)
-      else if mode = "host" then
-        let r := getCertForHost s.cfg fbb snb now s.st
-        ({ s with st := r.1, now := now, last := lastOf r.2 s.last }, pre ++ showOutcome s.st.next r.2)
+    if op ≠ "get" ∧ op ≠ "hs" then (s, "bad-op") else doGet s op mode fb sni (s.now + 1)
+  | [op, ms, mode, fb, sni] =>
+    -- realtime cases: the harness passes the wall clock (unix ms) read just before the call
+    match ms.toInt? with
+    | some t =>
+      if op = "getat" then doGet s "get" mode fb sni t
+      else if op = "hsat" then doGet s "hs" mode fb sni t
       else (s, "bad-op")
+    | none => (s, "bad-op")
+  | ["concat", ms, hs] =>
+    match ms.toInt?, unhexList hs with
+    | some t, some hosts =>
+      if !(hosts.all inModel) then (s, "out-of-model") else
+      let r := concOp { s with now := t } hosts
+      (r.1, "conc " ++ ";".intercalate (r.2.map (showOutcome s.st.next)))
     | _, _ => (s, "bad-op")
+  | ["ca", _] => (s, "ok")        -- kind of the CA key: invisible to the model (bit `signedByCA`)
+  | ["h2", _] => (s, "ok")        -- SetH2Config: ALPN only
+  | ["sleep", _] => (s, "ok")     -- real time passes; realtime cases carry the clock in the next op
+  | ["realtime"] => (s, "ok")
   | ["conc", hs] =>
     match unhexList hs with
     | some hosts =>
